@@ -269,11 +269,11 @@ func (f File) Canonical() string {
 // Statement alphabets
 
 var commentTexts = []string{"", " ", " c", " c d ", "#x", " é!"}
-var strTexts = []string{"x", "a b", "é.go", "**/*.go", "", "./bin/x-1"}
-var cmdTexts = []string{"echo a", "echo {{.X}}", "a  b", "echo $X", "go test ./...", `echo "q" | tr a b > f`}
+var strTexts = []string{"x", "a b", "é.go", "**/*.go", "", "./bin/x-1", `C:\temp\new`, `%s\t%d\n a\\b`, "#{}(),:=->task"}
+var cmdTexts = []string{"echo a", "echo {{.X}}", "a  b", "echo $X", "go test ./...", `echo "q" | tr a b > f`, `echo don't stop`, `echo 5\" x`}
 
 func argChoices() []Arg {
-	return []Arg{{false, "x.go"}, {false, "**/*.é"}, {true, "dep"}, {true, "é_b"}, {false, ""}}
+	return []Arg{{false, "x.go"}, {false, "**/*.é"}, {true, "dep"}, {true, "é_b"}, {false, ""}, {false, `a\tb\\c`}}
 }
 
 // argLists returns all lists of length <= n over the arg choices.
@@ -389,6 +389,8 @@ func ReducedStatements(extNames bool) []Stmt {
 		{Kind: KTask, Name: "a", Outs: []Arg{id("X")}, Cmds: []string{"echo a"}},
 		{Kind: KTask, Name: "a", Outs: []Arg{s("o1"), id("X")}, Cmds: []string{`echo "q" | tr a b > f`}},
 		{Kind: KTask, Name: "a", Deps: []Arg{s("x.go"), s("y.go")}, Outs: []Arg{s("")}, Cmds: []string{"echo a", "echo b"}},
+		{Kind: KTask, Name: "q", Deps: []Arg{s(`C:\new\table`)}, Cmds: []string{`echo don't stop`}},
+		{Kind: KAssign, Name: "W", Text: `%s\t%d\n`},
 	}
 	if extNames {
 		out = append(out,
